@@ -46,11 +46,19 @@ def signature(scn, what_kind):
     return "dataset_op/%s/d=%s/byname=%s/vars=%s/%s" % (i["op"], i["d"] or "-", i["byname"], "|".join(",".join(v) or "-" for v in i["vars"]), what_kind)
 
 
-def _mk_var(dims, base):
+# data types by key: the second variable holds integers (booleans when the operation is a reduction), the others floats
+DTYPES = {"b": "i"}
+
+
+def _mk_var(dims, base, dtype="f"):
     shape = [len(LABELS[d]) for d in dims]
     n = int(np.prod(shape)) if shape else 1
     vals = (np.arange(n, dtype=float) + base + 0.25).reshape(shape)
-    if n >= 2:
+    if dtype == "i":
+        vals = np.asarray(vals, dtype=int)
+    elif dtype == "?":
+        vals = (np.asarray(vals, dtype=int) % 3) > 0
+    elif n >= 2:
         vals[np.unravel_index(n - 1, vals.shape)] = np.nan        # one missing value per variable (at the last stored position)
     v = A.DimArray(vals, axes=[A.Axis(np.array(LABELS[d], dtype=object) if d == "z" else LABELS[d], d) for d in dims])
     v.attrs["tag"] = "var%d" % base
@@ -60,7 +68,7 @@ def _mk_var(dims, base):
 def _mk_ds(varlist, offset=0):
     ds = A.Dataset()
     for k, dims in zip("abcd", varlist):
-        ds[k] = _mk_var(dims, 100 * ("abcd".index(k) + 1) + offset)
+        ds[k] = _mk_var(dims, 100 * ("abcd".index(k) + 1) + offset, DTYPES.get(k, "f"))
     ds.attrs.update(A.attrs_enc(9))
     return ds
 
@@ -146,6 +154,9 @@ def _ops(i, ds, ds2, ds3=None):
     if o == "interp_axis":
         new = [3.0, 5.0, 2.0, 4.0] if d == "x" else [3.0, 6.0]       # 4.0: the label whose right neighbour holds the missing value
         return (lambda: ds.interp_axis(new, axis=axd)), (lambda k, v: v.interp_axis(new, axis=d))
+    if o == "interp_axis_nodes":
+        new = [2.0, 6.0] if d == "x" else [6.0, 2.0]          # every requested point is an existing label
+        return (lambda: ds.interp_axis(new, axis=axd)), (lambda k, v: v.interp_axis(new, axis=d))
     if o == "interp_axis_oob":
         new = [1.0, 5.0, 7.0]
         return (lambda: ds.interp_axis(new, axis=axd)), (lambda k, v: v.interp_axis(new, axis=d))
@@ -184,6 +195,15 @@ def _ops(i, ds, ds2, ds3=None):
 
 
 def replay(scn):
+    global DTYPES
+    DTYPES = {"b": "?"} if scn["in"]["op"] in ("mean", "sum", "std", "var", "median") else {"b": "i"}
+    try:
+        return _replay(scn)
+    finally:
+        DTYPES = {"b": "i"}
+
+
+def _replay(scn):
     i = scn["in"]
     exp = scn["out"]
     viol, calls = [], 0
